@@ -83,7 +83,7 @@ def _nm(h, N, adaptive):
     h.assume('nrec >= 2', nrec=nrec)
     xs, ys = h.list_real('stepmon_x', n=nrec), h.list_real('stepmon_y', inf=True, n=nrec)
     stepmon = h.obj(MON, _x=xs, _y=ys, _id=h.clist([]), _info=h.clist([]), k=None, _npts=None, label='ChiSquare')
-    cb = h.fn('CALLBACK', ret='none', log='callback')
+    cb = h.fn('CALLBACK', ret='none', log='callback', truthy=h.bool('callback_object_is_truthy'))
     s = h.obj(SO + '::NelderMeadSimplexSolver', nDim=N, nPop=N + 1, population=pop, popEnergy=popE,
               _bestSolution=None, _bestEnergy=None, _stepmon=stepmon, _useStrictRange=False, _constraints=cons,
               _strictbounds=cons, radius=0.05, adaptive=adaptive, id=None, _termination=h.fn('TERMINATION', ret='bool'),
